@@ -83,7 +83,7 @@ def loops_over(f):
 def run(chk, facts, rule='C03-R17'):
     chk.rule(rule, 'counted arrays: where at least three loops of the program run an index from 0 while "i < N" and subscript '
              'array A with it, no loop that starts at 0 continues while "i <= N" and subscripts A (it would read and '
-             'possibly modify the element behind the last valid one)', min_instances=40)
+             'possibly modify the element behind the last valid one)', min_instances=25)
     seen = set()
     table = {}
     for un in facts.all_unit_names():
